@@ -14,10 +14,27 @@ p[0] = init == bytes after storing every leaf the initializer denotes one by
 one (p.f.g = v / p.a[i] = v) into zeroed memory; no initializer => all zero;
 flexible array: requested allocation >= header + n*item, nothing written
 outside it, sizeof(p[0]) == that size.
+
+Families added after the audit round (all enumerated, same oracles):
+ * tail kinds: wchar_t[], char16_t[], _Bool[], unsigned char[], double[], int *[], struct N[], int[][2] and
+   a flexible struct nested two levels, each behind 0 or 1 header field; str initializers (one item per
+   UTF-32 / UTF-16 unit + terminator), bytes for every 1-byte item type; lengths given as True, an
+   __index__ object, a float (refused); tail lengths around the trailing padding (pad-1, pad, pad+1);
+ * top-level forms of non-aggregates: T *, T[3], T[], T[2][2], T[][2] for 15 primitive kinds;
+ * initializer object kinds: list / tuple / dict subclasses (namedtuple, OrderedDict, defaultdict), str-subclass
+   and bytes dict keys, dicts over all fields, cdata leaves (short cdata for int, int[2] / void * / char * for
+   int *), and objects whose acceptance the statement does not fix (range, bytearray, cdata array of another
+   length): there only "both refuse or both give the same bytes" is demanded;
+ * field kinds: anonymous struct, anonymous struct holding an anonymous union, 1-bit signed / unsigned / _Bool
+   bitfields, a 64-bit bitfield, _Bool, unsigned / signed char, float, long long, enum, function pointer,
+   wchar_t, struct N[2], int[2][2], int *[2], wchar_t[2], unsigned char[3];
+ * front ends: out-of-line ABI module, cdef(packed=True), ctype object instead of type string, the default
+   ffi.new_allocator().
 """
 import itertools
 import json
 import os
+import struct
 
 from .. import pool
 from ..build import InfraError
@@ -35,25 +52,65 @@ META = dict(
          "ffi.new(T, init) are compared with new(T) followed by p[0] = init and with an independent interpretation of "
          "the initializer as a list of leaf stores executed through field/index assignment on zeroed memory.  The heap "
          "is poisoned before every allocation so that missing zero-fill shows; a recording allocator with canaries "
-         "shows the size really requested for flexible arrays and any write outside it.",
+         "shows the size really requested for flexible arrays and any write outside it.  Added families, same "
+         "oracles: 9 further tail kinds (wchar_t[], char16_t[], _Bool[], unsigned char[], double[], int *[], "
+         "struct N[], int[][2], a flexible struct nested two levels) behind 0 or 1 header fields with str / bytes / "
+         "True / __index__ / float lengths and tail lengths on both sides of the trailing padding; the top-level "
+         "forms T *, T[3], T[], T[2][2], T[][2] of 15 primitive kinds (char types get the extra null); list, tuple "
+         "and dict subclasses, str-subclass and bytes keys, dicts over all fields, cdata leaves, and objects whose "
+         "acceptance is not fixed by the statement (range, bytearray, cdata array of another length: both paths must "
+         "refuse or give the same bytes); 17 further field kinds (anonymous structs, 1-bit and 64-bit bitfields, "
+         "_Bool, float, long long, enum, function pointer, wide chars, arrays of structs / arrays / pointers) alone, "
+         "paired with old kinds and with each other; every case additionally through the default "
+         "ffi.new_allocator() and, on every second case, with a ctype object instead of the type string; the "
+         "flexible types again through an out-of-line ABI module and under cdef(packed=True); zero-fill of large "
+         "top-level arrays around the malloc thresholds (_large.py).",
     note="the leaf stores p.f = v / p.a[i] = v and ffi.offsetof are trusted (decided by C01-C03); for flexible-array "
-         "types the reference object is allocated with the same array length before p[0] = init")
+         "types the reference object is allocated with the same array length before p[0] = init; wide-character "
+         "strings are interpreted by the check itself (UTF-32 / UTF-16 units written as raw bytes)")
 
 NAMED = """
 struct N { char c; int i; };
 union UU { int a; char b[5]; };
 struct V { short h; char t[]; };
+struct W { int x; struct V v; };
+typedef int (*fp_t)(int);
+enum E { EA, EB = 5, EC = -3 };
 """
+API_PRELUDE = "#include <stddef.h>\n#include <uchar.h>\n"
+
+
+def M(name):
+    """a leaf value that only exists per FFI (resolved by Gen.leaf)"""
+    return ("@", name)
+
 
 # prim key -> (C type, bitfield width, valid values (first = primary), values that must be refused)
 PRIMS = {
     "c": ("char", None, [b"A", b"\xff"], [b"AB", 65]),
     "h": ("short", None, [0x1234, -2], [70000, "x"]),
-    "i": ("int", None, [0x12345678, -1], [1 << 31]),
+    "i": ("int", None, [0x12345678, -1, M("CAST_SHORT")], [1 << 31]),
     "d": ("double", None, [1.5, -0.0], ["x"]),
-    "p": ("int *", None, ["PTR", "NULL"], [5]),
+    "p": ("int *", None, [M("PTR"), M("NULL"), M("ARR"), M("VOIDP")], [5, M("CHARP")]),
     "b3": ("int", 3, [3, -4], [4]),
+    # kinds added after the audit round
+    "w": ("wchar_t", None, ["x", "€"], ["xy", b"x"]),
+    "c16": ("char16_t", None, ["x", "€"], ["\U00010000", "xy"]),
+    "c32": ("char32_t", None, ["x", "\U00010000"], ["xy"]),
+    "B": ("_Bool", None, [1, True], [2]),
+    "uc": ("unsigned char", None, [0xC8, 1], [256, -1]),
+    "sc": ("signed char", None, [-3, 0x7f], [128]),
+    "f": ("float", None, [0.1, -2.5], ["x"]),
+    "q": ("long long", None, [0x123456789abcdef0, -2], [1 << 63]),
+    "e": ("enum E", None, [5, -3], ["EB"]),
+    "fp": ("fp_t", None, [M("FPTR"), M("NULL")], [5]),
+    "u1": ("unsigned", 1, [1], [2, -1]),
+    "s1": ("int", 1, [-1, 1], [2, -2]),
+    "B1": ("_Bool", 1, [1], [2]),
+    "q64": ("unsigned long long", 64, [0xfedcba9876543210], [1 << 64, -1]),
 }
+BYTE_ITEM = ("c", "uc", "sc", "B")          # arrays of these accept a bytes initializer
+WIDE_ITEM = {"w": 4, "c16": 2, "c32": 4}    # arrays of these accept a str initializer; value = unit size
 
 
 def P(k):
@@ -67,46 +124,80 @@ def ARR(e, n):
 D_N = ("agg", "struct", "N", (("c", P("c"), True), ("i", P("i"), True)))
 D_UU = ("agg", "union", "UU", (("a", P("i"), True), ("b", ARR(P("c"), 5), False)))
 D_V = ("agg", "struct", "V", (("h", P("h"), True), ("t", ARR(P("c"), None), True)))
+D_W = ("agg", "struct", "W", (("x", P("i"), True), ("v", D_V, True)))
 
 KINDS = ["c", "h", "i", "d", "p", "c3", "i2", "N", "U", "b3", "AU"]
 FLEXES = [None, "fi", "fc", "fV"]
+# --- added families
+NEWKINDS = ["AS", "ASU", "u1", "s1", "B1", "q64", "B", "uc", "f", "q", "e", "fp", "w", "N2", "i22", "p2", "w2", "uc3"]
+BITKINDS = ["u1", "s1", "B1", "b3", "q64"]
+NEWFLEXES = ["fw", "f16", "fB", "fu", "fd", "fpp", "fN", "f2", "fW"]
+TOP_PRIMS = ["c", "h", "i", "d", "p", "w", "c16", "c32", "B", "uc", "sc", "f", "q", "e", "fp"]
+FORMS_AGG = ("ptr", "arr3", "open")
+FORMS_PRIM = ("ptr", "arr3", "open", "arr2x2", "openx2")
+ANON_KINDS = ("AU", "AS", "ASU")     # out-of-line modules list the members of anonymous aggregates as plain fields
+FLEX_ITEM = {"fi": "i", "fc": "c", "fw": "w", "f16": "c16", "fB": "B", "fu": "uc", "fd": "d", "fpp": "p"}
 
 
 def kind_fields(kind, n):
     """[(field name, descriptor, takes part in positional init, C text)]"""
-    if kind in ("c", "h", "i", "d"):
+    if kind in ("c", "h", "i", "d", "B", "uc", "f", "q", "e", "fp", "w"):
         return [(n, P(kind), True, "%s %s;" % (PRIMS[kind][0], n))]
     if kind == "p":
         return [(n, P("p"), True, "int *%s;" % n)]
-    if kind == "b3":
-        return [(n, P("b3"), True, "int %s:3;" % n)]
+    if kind in ("b3", "u1", "s1", "B1", "q64"):
+        return [(n, P(kind), True, "%s %s:%d;" % (PRIMS[kind][0], n, PRIMS[kind][1]))]
     if kind == "c3":
         return [(n, ARR(P("c"), 3), True, "char %s[3];" % n)]
     if kind == "i2":
         return [(n, ARR(P("i"), 2), True, "int %s[2];" % n)]
+    if kind == "uc3":
+        return [(n, ARR(P("uc"), 3), True, "unsigned char %s[3];" % n)]
+    if kind == "w2":
+        return [(n, ARR(P("w"), 2), True, "wchar_t %s[2];" % n)]
+    if kind == "p2":
+        return [(n, ARR(P("p"), 2), True, "int *%s[2];" % n)]
+    if kind == "i22":
+        return [(n, ARR(ARR(P("i"), 2), 2), True, "int %s[2][2];" % n)]
+    if kind == "N2":
+        return [(n, ARR(D_N, 2), True, "struct N %s[2];" % n)]
     if kind == "N":
         return [(n, D_N, True, "struct N %s;" % n)]
     if kind == "U":
         return [(n, D_UU, True, "union UU %s;" % n)]
     if kind == "AU":
         return [(n + "a", P("h"), True, "union { short %sa; char %sb; };" % (n, n)), (n + "b", P("c"), False, "")]
-    if kind == "fi":
-        return [(n, ARR(P("i"), None), True, "int %s[];" % n)]
-    if kind == "fc":
-        return [(n, ARR(P("c"), None), True, "char %s[];" % n)]
+    if kind == "AS":
+        # anonymous struct: all its members count in a positional initializer
+        return [(n + "a", P("h"), True, "struct { short %sa; char %sb; };" % (n, n)), (n + "b", P("c"), True, "")]
+    if kind == "ASU":
+        return [(n + "a", P("c"), True, "struct { char %sa; union { short %sb; char %sc; }; };" % (n, n, n)),
+                (n + "b", P("h"), True, ""), (n + "c", P("c"), False, "")]
+    if kind in FLEX_ITEM:
+        return [(n, ARR(P(FLEX_ITEM[kind]), None), True, "%s %s[];" % (PRIMS[FLEX_ITEM[kind]][0].rstrip(), n))]
+    if kind == "fN":
+        return [(n, ARR(D_N, None), True, "struct N %s[];" % n)]
+    if kind == "f2":
+        return [(n, ARR(ARR(P("i"), 2), None), True, "int %s[][2];" % n)]
     if kind == "fV":
         return [(n, D_V, True, "struct V %s;" % n)]
+    if kind == "fW":
+        return [(n, D_W, True, "struct W %s;" % n)]
     raise InfraError("unknown kind %r" % (kind,))
 
 
 def build_type(spec, tag):
-    """spec = (su, kinds, flex) -> (descriptor, C text)"""
+    """spec = (su, kinds, flex) -> (descriptor, C text); su == 'prim': the primitive kinds[0] itself"""
     su, kinds, flex = spec
+    if su == "prim":
+        return P(kinds[0]), ""
     fields = []
     text = []
     for j, k in enumerate(kinds):
-        for idx, (fn, d, inctor, ctext) in enumerate(kind_fields(k, "f%d" % j)):
-            if su == "union" and (j > 0 or idx > 0):
+        for fn, d, inctor, ctext in kind_fields(k, "f%d" % j):
+            # union: only the first member is set by a sequence; if that member is an anonymous aggregate its own
+            # members keep their flags (b_complete_struct_or_union: cfsrc->cf_flags | fflags)
+            if su == "union" and j > 0:
                 inctor = False
             fields.append((fn, d, inctor))
             if ctext:
@@ -126,32 +217,81 @@ def has_var(d):
     return False
 
 
-def ctype_name(d):
-    if d[0] == "prim":
-        return PRIMS[d[1]][0]
-    if d[0] == "agg":
-        return "%s %s" % (d[1], d[2])
-    raise InfraError("no plain name for %r" % (d,))
-
-
-def array_decl(d, inner=""):
-    """C type string of descriptor d (arrays of arrays are not generated)."""
+def decl(d, inner=""):
+    """C type string of descriptor d around the declarator text 'inner' ('' / ' *' / '(*)')."""
     if d[0] == "arr":
-        return "%s%s[%s]" % (ctype_name(d[1]), inner, "" if d[2] is None else d[2])
-    return ctype_name(d) + inner
+        return decl(d[1], "%s[%s]" % (inner, "" if d[2] is None else d[2]))
+    if d[0] == "prim":
+        return PRIMS[d[1]][0] + inner
+    return "%s %s%s" % (d[1], d[2], inner)
+
+
+def ctype_name(d):
+    return decl(d)
+
+
+array_decl = decl
+
+
+def form_top(d, form):
+    if form == "ptr":
+        return d
+    if form == "arr3":
+        return ARR(d, 3)
+    if form == "open":
+        return ARR(d, None)
+    if form == "arr2x2":
+        return ARR(ARR(d, 2), 2)
+    if form == "openx2":
+        return ARR(ARR(d, 2), None)
+    raise InfraError("unknown form %r" % (form,))
 
 
 # ---------------------------------------------------------------------------- initializers
 
-class Cand(object):
-    __slots__ = ("obj", "writes", "bad", "var", "shape")
+class IndexObj(object):
+    def __init__(self, n):
+        self.n = n
 
-    def __init__(self, obj, writes, bad=False, var=None, shape=""):
+    def __index__(self):
+        return self.n
+
+    def __repr__(self):
+        return "IndexObj(%d)" % self.n
+
+
+class ListSub(list):
+    pass
+
+
+class StrSub(str):
+    pass
+
+
+def _listsub(xs):
+    return ListSub(xs)
+
+
+def _ntuple(xs):
+    import collections
+    return collections.namedtuple("NT", ["x%d" % i for i in range(len(xs))])(*xs)
+
+
+_listsub.__name__ = "listsub"
+_ntuple.__name__ = "namedtuple"
+
+
+class Cand(object):
+    __slots__ = ("obj", "writes", "bad", "var", "shape", "free")
+
+    def __init__(self, obj, writes, bad=False, var=None, shape="", free=False):
         self.obj = obj          # the initializer object
         self.writes = writes    # [(path, leaf value | ("raw", bytes))] in order
         self.bad = bad          # must be refused on both paths
         self.var = var          # sizing of the flexible part: int (items) for an array, dict for a struct, or None
         self.shape = shape
+        self.free = free        # the statement does not say whether this object is an initializer at all:
+        #                         only "all paths refuse, or all accept and leave the same bytes" is demanded
 
 
 class Gen(object):
@@ -159,13 +299,24 @@ class Gen(object):
         self.ffi = ffi
         self.keep = []
         self.ptr = ffi.cast("int *", 0x1122334455667788)
+        self.arr2 = ffi.new("int[2]")
+        fptr = ffi.cast("fp_t", 0x11223344)
+        # marker -> (initializer object, value for the leaf store)
+        self.marks = {
+            "PTR": (self.ptr, self.ptr),
+            "NULL": (ffi.NULL, ffi.NULL),
+            "ARR": (self.arr2, ffi.cast("int *", self.arr2)),              # array cdata for a pointer leaf
+            "VOIDP": (ffi.cast("void *", 0x1020304050607080), ffi.cast("int *", 0x1020304050607080)),
+            "CHARP": (ffi.cast("char *", 0x1020), None),                   # refused for 'int *'
+            "CAST_SHORT": (ffi.cast("short", -2), -2),                      # integer cdata for an int leaf
+            "FPTR": (fptr, fptr),
+        }
+        self.dflt = ffi.new_allocator()
 
     def leaf(self, v):
-        if v == "PTR":
-            return self.ptr
-        if v == "NULL":
-            return self.ffi.NULL
-        return v
+        if isinstance(v, tuple) and len(v) == 2 and v[0] == "@":
+            return self.marks[v[1]]
+        return v, v
 
     def primary(self, d):
         return self.alts(d, -1)[0]
@@ -176,43 +327,107 @@ class Gen(object):
         alternative of every member."""
         if d[0] == "prim":
             ctype, bw, good, bad = PRIMS[d[1]]
-            out = [Cand(self.leaf(v), [((), self.leaf(v))], shape="leaf") for v in good]
+            out = []
+            for v in good:
+                o, st = self.leaf(v)
+                out.append(Cand(o, [((), st)], shape="leaf"))
             if depth < 0:
                 return out[:1]
-            return out + [Cand(v, None, bad=True, shape="bad-leaf") for v in bad]
+            return out + [Cand(self.leaf(v)[0], None, bad=True, shape="bad-leaf") for v in bad]
         if d[0] == "arr":
             return self.arr_alts(d, depth)
         return self.agg_alts(d, depth)
 
+    # ---- pieces of array initializers
+    def lst(self, d, k, conv=list, bad=False):
+        pe = self.primary(d[1])
+        w = []
+        for i in range(k):
+            w += [((i,) + p, v) for p, v in pe.writes]
+        return Cand(conv([pe.obj] * k), None if bad else w, bad=bad, var=k if d[2] is None else None,
+                    shape="%s[%d]" % (conv.__name__, k) + ("-too-long" if bad else ""))
+
+    def bytes_cand(self, d, s):
+        """bytes for an array of 1-byte items: one item per byte, a terminator if there is room"""
+        L = d[2]
+        ek = d[1][1]
+        if L is not None and len(s) > L:
+            return Cand(s, None, bad=True, shape="bytes-too-long")
+        w = [((i,), s[i:i + 1] if ek == "c" else s[i]) for i in range(len(s))]
+        if L is None or len(s) < L:
+            w.append(((len(s),), b"\x00" if ek == "c" else 0))
+        if L is None:
+            return Cand(s, w, var=len(s) + 1, shape="bytes")
+        return Cand(s, w, shape="bytes-exact" if len(s) == L else "bytes-shorter")
+
+    def str_cand(self, d, s):
+        """str for an array of wide characters: one item per UTF-32 (4-byte items) or UTF-16 (2-byte items)
+        unit, a terminator if there is room; written as raw bytes by the leaf oracle"""
+        L = d[2]
+        wide = WIDE_ITEM[d[1][1]]
+        units = []
+        for ch in s:
+            o = ord(ch)
+            if wide == 2 and o > 0xffff:
+                o -= 0x10000
+                units += [0xd800 | (o >> 10), 0xdc00 | (o & 0x3ff)]
+            else:
+                units.append(o)
+        fmt = "<H" if wide == 2 else "<I"
+        if L is not None and len(units) > L:
+            return Cand(s, None, bad=True, shape="str-too-long")
+        w = [((i,), ("raw", struct.pack(fmt, u))) for i, u in enumerate(units)]
+        if L is None or len(units) < L:
+            w.append(((len(units),), ("raw", struct.pack(fmt, 0))))
+        if L is None:
+            return Cand(s, w, var=len(units) + 1, shape="str")
+        return Cand(s, w, shape="str-exact" if len(units) == L else "str-shorter")
+
+    @staticmethod
+    def bytes_pattern(ek):
+        return b"\x01\x00\x01\x01\x01\x00\x01\x01\x01\x01\x01\x01" if ek == "B" else b"xyzvwutsrqpo"
+
+    STRS = ["", "a", "a€", "a€z", "a€zq", "\U00010000", "a\U00010000", "z\U00010000€",
+            "\U00010000\U00010001"]
+
     def arr_alts(self, d, depth):
         ffi = self.ffi
         e, L = d[1], d[2]
-        pe = self.primary(e)
-        ischar = e == P("c")
+        ek = e[1] if e[0] == "prim" else None
+        bytes_ok = ek in BYTE_ITEM
+        wide = ek in WIDE_ITEM
         out = []
 
         def lst(k, conv=list, bad=False):
-            w = []
-            for i in range(k):
-                w += [((i,) + p, v) for p, v in pe.writes]
-            return Cand(conv([pe.obj] * k), None if bad else w, bad=bad, var=k if L is None else None,
-                        shape="%s[%d]" % (conv.__name__, k) + ("-too-long" if bad else ""))
+            return self.lst(d, k, conv, bad)
         if L is None:
             # flexible / open array: its own length comes from the initializer
             out.append(lst(2))
             if depth < 0:
                 return out[:1]
-            out += [lst(0), lst(1), lst(3, tuple)]
+            out += [lst(0), lst(1), lst(3, tuple), lst(2, _listsub)]
             for n in (0, 2):
                 out.append(Cand(n, [], var=n, shape="int-length"))
-            if ischar:
-                for s in (b"", b"ab"):
-                    w = [((i,), s[i:i + 1]) for i in range(len(s))] + [((len(s),), b"\x00")]
-                    out.append(Cand(s, w, var=len(s) + 1, shape="bytes"))
+            out.append(Cand(True, [], var=1, shape="int-length-bool"))
+            out.append(Cand(IndexObj(2), [], var=2, shape="int-length-index"))
+            out.append(Cand(2.0, None, bad=True, shape="float-length"))
+            if bytes_ok:
+                pat = self.bytes_pattern(ek)
+                for k in (0, 2):
+                    out.append(self.bytes_cand(d, pat[:k]))
+                out.append(Cand(bytearray(b"\x01"), None, free=True, shape="free-bytearray"))
+                if ek == "B":
+                    out.append(Cand(b"\x01\x02", None, bad=True, shape="bytes-bool-out-of-range"))
+                out.append(Cand("ab", None, bad=True, shape="str-for-non-wide"))
+            elif wide:
+                for s in ("", "a€", "a\U00010000"):
+                    out.append(self.str_cand(d, s))
+                out.append(Cand(b"ab", None, bad=True, shape="bytes-for-non-char"))
             out.append(Cand(-1, None, bad=True, shape="negative-length"))
+            out.append(Cand(range(1), None, free=True, shape="free-range"))
             if depth >= 1 and e[0] != "prim":
                 for a in self.alts(e, depth - 1)[1:]:
-                    if a.var is None:
+                    if a.var is None and not a.free:
                         out.append(Cand([a.obj], None if a.bad else [((0,) + p, v) for p, v in a.writes], bad=a.bad,
                                         var=1, shape="list[%s]" % a.shape))
             return out
@@ -222,35 +437,72 @@ class Gen(object):
         for k in range(L):
             out.append(lst(k))
         out.append(lst(L, tuple))
+        out.append(lst(L, _listsub))
+        out.append(lst(L, _ntuple))
         out.append(lst(L + 1, bad=True))
-        if ischar:
-            pat = b"xyzvw"
+        if bytes_ok:
+            pat = self.bytes_pattern(ek)
             for k in range(L + 2):
-                s = pat[:k]
-                if k > L:
-                    out.append(Cand(s, None, bad=True, shape="bytes-too-long"))
-                    continue
-                w = [((i,), s[i:i + 1]) for i in range(k)]
-                if k < L:
-                    w.append(((k,), b"\x00"))
-                out.append(Cand(s, w, shape="bytes-exact" if k == L else "bytes-shorter"))
+                out.append(self.bytes_cand(d, pat[:k]))
+            out.append(Cand(bytearray(b"\x01"), None, free=True, shape="free-bytearray"))
+            if ek == "B":
+                out.append(Cand(b"\x02", None, bad=True, shape="bytes-bool-out-of-range"))
+            out.append(Cand("ab", None, bad=True, shape="str-for-non-wide"))
         else:
             out.append(Cand(b"xy", None, bad=True, shape="bytes-for-non-char"))
-        nbytes = ffi.sizeof(array_decl(d))
+        if wide:
+            for s in self.STRS:
+                out.append(self.str_cand(d, s))
+        out.append(Cand(range(1), None, free=True, shape="free-range"))
+        nbytes = ffi.sizeof(decl(d))
         blk = ffi.new("char[]", nbytes)
-        src = ffi.cast("%s(*)[%d]" % (ctype_name(e), L), blk)[0]
-        store_leaves(ffi, src, array_decl(d), lst(L).writes)
+        src = ffi.cast(decl(d, "(*)"), blk)[0]
+        store_leaves(ffi, src, decl(d), lst(L).writes)
         self.keep.append(blk)
         out.append(Cand(src, [((), ("raw", bytes(ffi.buffer(blk))))], shape="cdata-same-type"))
+        other = ffi.new(decl(ARR(e, L + 1)))
+        self.keep.append(other)
+        out.append(Cand(other, None, free=True, shape="free-cdata-other-length"))
         if depth >= 1 and e[0] != "prim":
             for a in self.alts(e, depth - 1)[1:]:
-                if a.var is not None:
+                if a.var is not None or a.free:
                     continue
                 out.append(Cand([a.obj], None if a.bad else [((0,) + p, v) for p, v in a.writes], bad=a.bad,
                                 shape="list[%s]" % a.shape))
         return out
 
+    def pad_cands(self, d):
+        """extra initializers for a directly contained flexible array: item counts on both sides of the trailing
+        padding of the enclosing struct (the sizing pass starts from sizeof = offset of the tail + padding)"""
+        ffi = self.ffi
+        fn, fd, _ = d[3][-1]
+        if not (fd[0] == "arr" and fd[2] is None):
+            return []
+        tn = ctype_name(d)
+        isz = ffi.sizeof(decl(fd[1]))
+        pad = ffi.sizeof(tn) - ffi.offsetof(tn, fn)
+        if pad <= 0:
+            return []
+        ek = fd[1][1] if fd[1][0] == "prim" else None
+        top = -(-pad // isz)
+        out = []
+        for k in sorted(set([max(top - 1, 0), top, top + 1])):
+            if k > 3:
+                out.append(self.lst(fd, k))
+            if k not in (0, 2):
+                c = Cand(k, [], var=k, shape="int-length")
+                out.append(c)
+            if k >= 1 and k - 1 not in (0, 2):
+                if ek in BYTE_ITEM:
+                    out.append(self.bytes_cand(fd, self.bytes_pattern(ek)[:k - 1]))
+                elif ek in WIDE_ITEM:
+                    out.append(self.str_cand(fd, "abcdefghijkl"[:k - 1]))
+        for c in out:
+            c.shape = "pad:" + c.shape
+        return out
+
     def agg_alts(self, d, depth):
+        import collections
         ffi = self.ffi
         su, tag, fields = d[1], d[2], d[3]
         ctor = [f for f in fields if f[2]]
@@ -274,22 +526,39 @@ class Gen(object):
             for n, c in zip(names, cs):
                 w += pref(n, c)
             return Cand(conv([c.obj for c in cs]), w, var=var_of(names, cs), shape="%s-prefix-%d" % (conv.__name__, k))
+
+        def dct(names_, conv=dict, shape=None, key=None):
+            cs = [prim[n] for n in names_]
+            w = []
+            for n, c in zip(names_, cs):
+                w += pref(n, c)
+            return Cand(conv([((key(n) if key else n), c.obj) for n, c in zip(names_, cs)]), w,
+                        var=var_of(names_, cs), shape=shape or "dict-%d" % len(names_))
         out.append(seq(len(ctor)))
         if depth < 0:
             return out[:1]
         for k in range(len(ctor)):
             out.append(seq(k))
         out.append(seq(len(ctor), tuple))
+        out.append(seq(len(ctor), _listsub))
+        out.append(seq(len(ctor), _ntuple))
         out.append(Cand([c.obj for c in (prim[f[0]] for f in ctor)] + [0], None, bad=True, shape="list-too-long"))
         names = [f[0] for f in fields]
         out.append(Cand({}, [], shape="dict-0"))
         for n in names:
-            out.append(Cand({n: prim[n].obj}, pref(n, prim[n]), var=var_of([n], [prim[n]]), shape="dict-1"))
+            out.append(dct([n]))
         for a, b in itertools.permutations(names, 2):
-            out.append(Cand({a: prim[a].obj, b: prim[b].obj}, pref(a, prim[a]) + pref(b, prim[b]),
-                            var=var_of([a, b], [prim[a], prim[b]]), shape="dict-2"))
+            out.append(dct([a, b]))
+        if len(names) > 2:
+            out.append(dct(names, shape="dict-all"))
+            out.append(dct(names[::-1], shape="dict-all-reversed"))
+        out.append(dct(names[:1], collections.OrderedDict, "ordereddict-1"))
+        out.append(dct(names[-1:], lambda kv: collections.defaultdict(int, kv), "defaultdict-1"))
+        out.append(dct(names[:1], shape="dict-strsub-key", key=StrSub))
+        out.append(Cand({names[0].encode(): prim[names[0]].obj}, None, bad=True, shape="dict-bytes-key"))
         out.append(Cand({"nosuchfield": 1}, None, bad=True, shape="dict-unknown-key"))
         out.append(Cand(5, None, bad=True, shape="int-for-aggregate"))
+        out.append(Cand(range(1), None, free=True, shape="free-range"))
         # a cdata of the same type
         full = seq(len(ctor))
         fixed = ffi.sizeof(ctype_name(d))
@@ -299,20 +568,23 @@ class Gen(object):
         self.keep.append(blk)
         out.append(Cand(srcp[0], [((), ("raw", bytes(ffi.buffer(blk))[:fixed]))], shape="cdata-same-type"))
         if depth >= 1:
+            extra = self.pad_cands(d)
             for pos, f in enumerate(fields):
                 fn = f[0]
-                for a in self.alts(f[1], depth - 1)[1:]:
+                more = extra if pos == len(fields) - 1 else []
+                for a in self.alts(f[1], depth - 1)[1:] + more:
                     v = var_of([fn], [a])
-                    out.append(Cand({fn: a.obj}, None if a.bad else pref(fn, a), bad=a.bad, var=v,
-                                    shape="dict{%s}" % a.shape))
+                    out.append(Cand({fn: a.obj}, None if (a.bad or a.free) else pref(fn, a), bad=a.bad, var=v,
+                                    free=a.free, shape="dict{%s}" % a.shape))
                     if f[2]:
                         k = ctor.index(f)
                         before = [prim[g[0]] for g in ctor[:k]]
                         w = []
                         for g, c in zip(ctor[:k], before):
                             w += pref(g[0], c)
-                        out.append(Cand([c.obj for c in before] + [a.obj], None if a.bad else w + pref(fn, a),
-                                        bad=a.bad, var=v, shape="list[..,%s]" % a.shape))
+                        out.append(Cand([c.obj for c in before] + [a.obj],
+                                        None if (a.bad or a.free) else w + pref(fn, a),
+                                        bad=a.bad, var=v, free=a.free, shape="list[..,%s]" % a.shape))
         return out
 
 
@@ -340,7 +612,7 @@ def needed_size(ffi, d, var):
     off = ffi.offsetof(tn, fn)
     v = var[fn]
     if fd[0] == "arr":
-        return off + v * ffi.sizeof(ctype_name(fd[1]))
+        return off + v * ffi.sizeof(decl(fd[1]))
     return off + max(ffi.sizeof(ctype_name(fd)), needed_size(ffi, fd, v))
 
 
@@ -364,6 +636,9 @@ def store_leaves(ffi, root, toptype, writes):
         if isinstance(v, tuple) and v and v[0] == "raw":
             off = ffi.offsetof(toptype, *path) if path else 0
             ffi.buffer(base + off, len(v[1]))[:] = v[1]
+            continue
+        if not path:            # a primitive behind a pointer
+            root[0] = v
             continue
         obj = root
         for step in path[:-1]:
@@ -405,35 +680,35 @@ class Recorder(object):
         return size, raw[g:g + size], raw[:g] == b"\xee" * g and raw[g + size:] == b"\xee" * g
 
 
+def shape_class(shape):
+    return shape.split("[")[0].split("{")[0]
+
+
 def run_type(ffi, gen, rec, d, form, counts):
-    """form: 'ptr' (new('T *', init)), 'arr3' (new('T[3]', init)), 'open' (new('T[]', init)).
-    Returns list of (sig, detail-without-type)."""
+    """form: 'ptr' (new('T *', init)), 'arr3' (new('T[3]', init)), 'open' (new('T[]', init)), 'arr2x2'
+    (new('T[2][2]', init)), 'openx2' (new('T[][2]', init)).  Returns list of (sig, detail-without-type)."""
     probs = []
     tn = ctype_name(d)
     isvar = has_var(d)
+    isagg = d[0] == "agg"
+    isopen = form.startswith("open")
     ncases = 0
 
     def count(k):
         counts[k] = counts.get(k, 0) + 1
 
+    top = form_top(d, form)
     if form == "ptr":
-        top = d
-        newtype = tn + " *"
+        newtype = decl(d, " *")
         fixed = ffi.sizeof(tn)
-        cands = gen.alts(d, 1)
-    elif form == "arr3":
-        top = ARR(d, 3)
-        newtype = tn + "[3]"
-        fixed = 3 * ffi.sizeof(tn)
-        cands = gen.alts(top, 1)
     else:
-        top = ARR(d, None)
-        newtype = tn + "[]"
-        fixed = None
-        cands = gen.alts(top, 1)
+        newtype = decl(top)
+        fixed = None if isopen else ffi.sizeof(newtype)
+    cands = gen.alts(top, 1)
+    ctobj = ffi.typeof(newtype)
 
     # no initializer: all zero
-    if form != "open":
+    if not isopen:
         poison(ffi, fixed)
         a = ffi.new(newtype)
         img = bytes(ffi.buffer(a))
@@ -441,38 +716,51 @@ def run_type(ffi, gen, rec, d, form, counts):
         ncases += 1
         if img != bytes(fixed):
             probs.append(({"kind": "not_zero_without_initializer", "form": form}, {"shape": "no-init", "init": "<none>", "form": form, "image": img}))
+        b = gen.dflt(newtype)
+        img = bytes(ffi.buffer(b))
+        if img != bytes(fixed):
+            probs.append(({"kind": "not_zero_without_initializer", "form": form, "allocator": "default"},
+                          {"shape": "no-init", "init": "<none>", "form": form, "image": img}))
 
-    for c in cands:
+    for ci, c in enumerate(cands):
         ncases += 1
-        count("init_" + ("refused" if c.bad else "accepted"))
-        count("shape:" + c.shape.split("[")[0].split("{")[0])
+        count("init_" + ("free" if c.free else "refused" if c.bad else "accepted"))
+        count("shape:" + shape_class(c.shape))
+        if c.shape.startswith(("dict{", "list[")) and c.shape[-1] in "}]":
+            count("member_shape:" + shape_class(c.shape[5:-1].replace("..,", "")))
         det = {"shape": c.shape, "init": describe(ffi, c.obj), "form": form}
         # --- sizes
-        if form == "open":
+        if isopen:
             n = c.var if c.var is not None else 0
-            fixed_c = n * ffi.sizeof(tn)
-            reftype = "%s(*)[%d]" % (tn, n)
-            toptype = "%s[%d]" % (tn, n)
+            sized = ARR(top[1], n)
+            fixed_c = n * ffi.sizeof(decl(top[1]))
+            reftype = decl(sized, "(*)")
+            toptype = decl(sized)
             need = fixed_c
-        elif form == "arr3":
-            fixed_c = fixed
-            reftype = "%s(*)[3]" % tn
-            toptype = newtype
-            need = fixed
-        else:
+        elif form == "ptr":
             fixed_c = fixed
             reftype = newtype
             toptype = tn
             need = max(fixed, needed_size(ffi, d, c.var)) if isvar else fixed
-        # --- path 1: ffi.new with the initializer (heap poisoned first)
+        else:
+            fixed_c = fixed
+            reftype = decl(top, "(*)")
+            toptype = newtype
+            need = fixed
+        # --- path 1: ffi.new with the initializer (heap poisoned first); every second case with the ctype object
+        newarg = ctobj if ci % 2 else newtype
+        if ci % 2:
+            count("new_with_ctype_object")
         poison(ffi, need)
-        r1 = attempt(lambda: ffi.new(newtype, c.obj))
+        r1 = attempt(lambda: ffi.new(newarg, c.obj))
         # --- path 1b: the same through a recording allocator
         rec.last = None
         r1b = attempt(lambda: rec.new(newtype, c.obj))
+        # --- path 1c: the same through the default allocator object
+        r1c = attempt(lambda: gen.dflt(newarg, c.obj))
         # --- path 2: allocate (same flexible length), zero, assign
         G = 32
-        room = need + (256 if c.bad else 0)
+        room = need + (256 if (c.bad or c.free) else 0)
 
         def ref_object():
             blk = ffi.new("char[]", room + 2 * G)
@@ -485,38 +773,53 @@ def run_type(ffi, gen, rec, d, form, counts):
         blk2, p2 = ref_object()
 
         def assign():
-            if not (form == "open" and c.shape == "int-length"):    # 'p[0] = 3' is not an array initializer
+            if not (isopen and c.shape.startswith("int-length")):    # 'p[0] = 3' is not an array initializer
                 p2[0] = c.obj
             return p2
         r2 = attempt(assign)
+        named = (("new", r1), ("assignment", r2), ("new_allocator", r1b), ("default_allocator", r1c))
         if c.bad:
-            acc = [n for n, r in (("new", r1), ("assignment", r2), ("new_allocator", r1b)) if r[0] == "ok"]
+            acc = [n for n, r in named if r[0] == "ok"]
             if acc:
-                probs.append(({"kind": "refused_value_accepted", "by": acc, "shape": c.shape.split("[")[0]},
-                              dict(det, outcomes=[r1[0], r2[0], r1b[0]])))
+                probs.append(({"kind": "refused_value_accepted", "by": acc, "shape": shape_class(c.shape)},
+                              dict(det, outcomes=[r[0] for _, r in named])))
             continue
-        if r1[0] != "ok" or r2[0] != "ok" or r1b[0] != "ok":
+        if c.free and all(r[0] == "exc" for _, r in named):
+            count("free_refused_by_all_paths")
+            continue
+        if any(r[0] != "ok" for _, r in named):
             sig = {"kind": "paths_disagree_on_acceptance", "new": r1[0], "assignment": r2[0], "new_allocator": r1b[0]}
+            if r1c[0] != r1[0]:
+                sig["default_allocator"] = r1c[0]
+            if c.free:
+                sig["free_form"] = shape_class(c.shape)
             if isvar and c.shape == "cdata-same-type" and r1[0] == "exc" and r2[0] == "ok":
                 sig = {"kind": "paths_disagree_on_acceptance",
                        "cause": "cdata_initializer_for_struct_with_flexible_array"}
-            probs.append((sig, dict(det, new=r1[1] if r1[0] == "exc" else "ok",
-                                    assignment=r2[1] if r2[0] == "exc" else "ok",
-                                    new_allocator=r1b[1] if r1b[0] == "exc" else "ok")))
+            probs.append((sig, dict(det, **{n: (r[1] if r[0] == "exc" else "ok") for n, r in named})))
             continue
         a = r1[1]
         img1 = bytes(ffi.buffer(a))
+        img1c = bytes(ffi.buffer(r1c[1]))
         img2, intact2 = ref_image(blk2)
         if not intact2:
             probs.append(({"kind": "write_outside_object", "path": "assignment", "form": form, "var": isvar},
                           dict(det, size=need)))
+        if c.free:
+            # accepted by every path: the bytes must agree (no leaf interpretation is claimed for these objects)
+            count("free_accepted_by_all_paths")
+            rsize, rimg, intact = rec.result()
+            if not (img1 == img1c == img2[:len(img1)]) or rimg[:len(img1)] != img1 or not intact:
+                probs.append(({"kind": "image_mismatch", "which": "free-form initializer", "form": form, "var": isvar,
+                               "shape": shape_class(c.shape)}, dict(det, new=img1, assign=img2, new_allocator=rimg)))
+            continue
         # --- path 3: leaf stores into zeroed memory
         blk3, p3 = ref_object()
         r3 = attempt(lambda: store_leaves(ffi, p3[0] if form != "ptr" else p3, toptype, c.writes))
         img3, intact3 = ref_image(blk3)
         if r3[0] != "ok" or not intact3:
             raise InfraError("leaf stores failed for %s %s: %s" % (newtype, det["init"], r3[1]))
-        if form == "open" and len(a) != n:
+        if isopen and len(a) != n:
             probs.append(({"kind": "open_array_length", "form": form}, dict(det, got=len(a), want=n)))
             continue
         if not (img1 == img2 == img3):
@@ -528,8 +831,11 @@ def run_type(ffi, gen, rec, d, form, counts):
             elif img1 == img2:
                 which = "new and assignment differ from the leaf stores"
             probs.append(({"kind": "image_mismatch", "which": which, "form": form, "var": isvar,
-                           "shape": c.shape.split("[")[0].split("{")[0]},
+                           "shape": shape_class(c.shape)},
                           dict(det, new=img1, assign=img2, leaves=img3)))
+        if img1c != img1:
+            probs.append(({"kind": "image_mismatch", "which": "default new_allocator differs", "form": form,
+                           "var": isvar, "shape": shape_class(c.shape)}, dict(det, new=img1, default_allocator=img1c)))
         # --- the recording allocator: size asked for, canaries, content
         rsize, rimg, intact = rec.result()
         if not intact:
@@ -539,57 +845,77 @@ def run_type(ffi, gen, rec, d, form, counts):
                           dict(det, requested=rsize, needed=need)))
         elif rimg[:len(img2)] != img2 or any(rimg[len(img2):]):
             probs.append(({"kind": "image_mismatch", "which": "new_allocator differs", "form": form, "var": isvar,
-                           "shape": c.shape.split("[")[0].split("{")[0]}, dict(det, new_allocator=rimg, assign=img2)))
-        if form == "ptr":
+                           "shape": shape_class(c.shape)}, dict(det, new_allocator=rimg, assign=img2)))
+        if not isagg and rsize > need:
+            count("extra_null_item_after_char_pointer")
+        if form == "ptr" and isagg:
             s = ffi.sizeof(a[0])
             if isvar:
                 count("flex_init_with_length" if c.var is not None else "flex_init_without_length")
                 count("flex_size_exact" if s == need else "flex_size_larger")
                 if need > fixed:
                     count("flex_grows_allocation")
+                if c.shape.startswith(("dict{pad:", "list[..,pad:")):
+                    count("flex_tail_ends_%s_padding" % ("inside" if need <= fixed else "beyond"))
             if s != len(img1) or s < need:
                 probs.append(({"kind": "sizeof_disagrees_with_allocation", "var": isvar},
                               dict(det, sizeof=s, buffer=len(img1), needed=need)))
     return probs, ncases, len(cands)
 
 
-def work(block):
-    """block: list of (index, spec), optionally preceded by the marker "API".  One FFI for the whole
-    block: in-line, or (marker) the ffi of a compiled API-mode module declaring the same types, where
-    struct types are realised lazily from the generated tables."""
+def make_ffi(mode, pairs):
+    """One FFI declaring NAMED and the types of pairs = [(idx, spec)].  mode: 'INL' in-line; 'PACK' in-line
+    with cdef(packed=True); 'PACK2' with cdef(pack=2); 'API' the ffi of a compiled API-mode module declaring the same types (struct types
+    are realised lazily from the generated tables); 'ABI' the ffi of an out-of-line ABI-mode module."""
     import cffi
-    api = bool(block) and block[0] == "API"
-    if api:
-        block = block[1:]
     ffi = cffi.FFI()
     built = []
     text = [NAMED]
-    for idx, spec in block:
+    for idx, spec in pairs:
         d, t = build_type(spec, "a%d" % idx)
         built.append((idx, spec, d))
         text.append(t)
-    ffi.cdef("".join(text))
-    if api:
+    if mode == "PACK":
+        ffi.cdef("".join(text), packed=True)
+    elif mode == "PACK2":
+        ffi.cdef("".join(text), pack=2)
+    else:
+        ffi.cdef("".join(text))
+    if mode in ("API", "ABI"):
         import importlib.util
-        import os
         from .. import build as _b
-        name = "_c20api_%d_%d" % (os.getpid(), block[0][0])
+        name = "_c20%s_%d_%d" % (mode.lower(), os.getpid(), pairs[0][0])
         d_ = os.path.join(_b.scratch(), name)
         os.makedirs(d_, exist_ok=True)
-        ffi.set_source(name, "".join(text), extra_compile_args=["-O0", "-g0", "-w"])
-        so = ffi.compile(tmpdir=d_, verbose=False)
-        spec_ = importlib.util.spec_from_file_location(name, so)
+        if mode == "API":
+            ffi.set_source(name, API_PRELUDE + "".join(text), extra_compile_args=["-O0", "-g0", "-w"])
+            path = ffi.compile(tmpdir=d_, verbose=False)
+        else:
+            import contextlib
+            import io
+            ffi.set_source(name, None)
+            path = os.path.join(d_, name + ".py")
+            with contextlib.redirect_stdout(io.StringIO()):     # recompile() prints "generating ..."
+                ffi.emit_python_code(path)
+        spec_ = importlib.util.spec_from_file_location(name, path)
         mod = importlib.util.module_from_spec(spec_)
         spec_.loader.exec_module(mod)
         ffi = mod.ffi
+    return ffi, built
+
+
+def work(block):
+    """block: [mode, (index, spec, forms), ...].  One FFI for the whole block (see make_ffi)."""
+    mode = block[0]
+    items = block[1:]
+    ffi, built = make_ffi(mode, [(idx, spec) for idx, spec, _ in items])
     gen = Gen(ffi)
     rec = Recorder(ffi)
     counts = {}
     bad = []
     ncases = 0
     nontriv = 0
-    for idx, spec, d in built:
-        forms = ["ptr"] if has_var(d) else ["ptr", "arr3", "open"]
+    for (idx, spec, d), (_, _, forms) in zip(built, items):
         for form in forms:
             probs, n, ninit = run_type(ffi, gen, rec, d, form, counts)
             ncases += n
@@ -597,7 +923,9 @@ def work(block):
             k = "type_" + form + ("_flex" if has_var(d) else "") + "_" + spec[0]
             counts[k] = counts.get(k, 0) + 1
             for sig, det in probs:
-                det = dict(det, spec=spec, idx=idx)
+                if mode != "INL":
+                    sig = dict(sig, mode=mode)
+                det = dict(det, spec=spec, idx=idx, mode=mode)
                 bad.append((sig, det))
         gen.keep = []
     # keep the reply small
@@ -624,29 +952,114 @@ def enumerate_specs(quick):
     return out
 
 
+def spec_forms(spec, quick):
+    su, kinds, flex = spec
+    if su == "prim":
+        return FORMS_PRIM
+    if flex:
+        return ("ptr",)
+    return FORMS_AGG
+
+
+def enumerate_extra(quick):
+    """The families added after the audit round: [(family, spec, forms)]."""
+    out = []
+    seen = set(enumerate_specs(quick))
+
+    def add(fam, spec, forms=None):
+        if spec in seen:
+            return
+        seen.add(spec)
+        out.append((fam, spec, forms or spec_forms(spec, quick)))
+    # 1. item kinds of the flexible tail, behind 0 or 1 header fields (thorough: also 2 headers over 4 kinds)
+    for flex in FLEXES[1:] + NEWFLEXES:
+        add("tail_kinds", ("struct", (), flex))
+    for flex in NEWFLEXES:
+        for k in KINDS:
+            add("tail_kinds", ("struct", (k,), flex))
+        if not quick:
+            for ks in itertools.product(("c", "i", "d", "b3"), repeat=2):
+                add("tail_kinds", ("struct", ks, flex))
+    # 2. top-level forms of primitive kinds
+    for k in TOP_PRIMS:
+        add("toplevel_prim", ("prim", (k,), None))
+    # 4. further field kinds: alone, paired with every old kind in both orders (unions: with 4 old kinds), before
+    #    the old flexible tails, the bitfield kinds with each other; thorough: also in every position of 3 fields
+    for k in NEWKINDS:
+        for su in ("struct", "union"):
+            add("field_kinds", (su, (k,), None))
+        for o in KINDS:
+            add("field_kinds", ("struct", (k, o), None))
+            add("field_kinds", ("struct", (o, k), None))
+        for o in ("c", "i", "d", "b3"):
+            add("field_kinds", ("union", (k, o), None))
+            add("field_kinds", ("union", (o, k), None))
+        for flex in FLEXES[1:]:
+            add("field_kinds", ("struct", (k,), flex))
+        if not quick:
+            for o1, o2 in itertools.product(("c", "d", "b3"), repeat=2):
+                for ks in ((k, o1, o2), (o1, k, o2), (o1, o2, k)):
+                    add("field_kinds", ("struct", ks, None))
+    for a, b in itertools.product(BITKINDS, repeat=2):
+        add("field_kinds", ("struct", (a, b), None))
+        add("field_kinds", ("struct", (a, b, "c"), None))     # two bitfields and a char in one word
+    return out
+
+
 def run(ctx):
     from . import _large
-    _large.c20(ctx)           # lengths on both sides of 2**8, 2**12, 2**16 (see _large.py)
-    specs = list(enumerate(enumerate_specs(ctx.quick)))
+    _large.c20(ctx)           # lengths on both sides of 2**8, 2**12, 2**16; zero-fill of large arrays (see _large.py)
+    base = enumerate_specs(ctx.quick)
+    items = [(i, s, spec_forms(s, ctx.quick)) for i, s in enumerate(base)]
+    extra = enumerate_extra(ctx.quick)
+    for fam, s, forms in extra:
+        ctx.count("family_%s_types" % fam)
+        items.append((len(items), s, forms))
+    specs = [(i, s) for i, s, _ in items]
     nblk = 64 if ctx.quick else 160
-    blocks = [specs[i::nblk] for i in range(nblk)]
+    blocks = [["INL"] + items[i::nblk] for i in range(nblk) if items[i::nblk]]
     ntypes = ncases = nontriv = 0
     allbad = {}
+
+    def flexible(it):
+        return bool(it[1][2])
+
+    def no_anon(it):
+        return not any(k in ANON_KINDS for k in it[1][1])
     # the types with a flexible part (and, thorough, all of them) again through a compiled API-mode module
-    # (not the anonymous-union kind: a compiled module lists the members of an anonymous union as plain
-    #  fields of the enclosing struct, so positional initializers count them one by one there, while the
-    #  in-line FFI skips all but the first -- the statement does not say which reading applies)
-    api_specs = [s_ for s_ in specs if "AU" not in s_[1][1]
-                 and (ctx.quick is False or has_var(build_type(s_[1], "a%d" % s_[0])[0]))]
+    # (not the anonymous-union / anonymous-struct kinds: a compiled module lists the members of an anonymous
+    #  aggregate as plain fields of the enclosing struct, so positional initializers count them one by one there,
+    #  while the in-line FFI skips all but the first member of a union -- the statement does not say which reading
+    #  applies)
+    # (nor the structs made of a flexible array only: gcc rejects that declaration -- counted)
+    api_items = [it for it in items if no_anon(it) and it[1][0] != "prim" and (ctx.quick is False or flexible(it))]
+    ctx.count("flexible_array_only_structs_not_in_api_mode_gcc_rejects", sum(1 for it in api_items if not it[1][1]))
+    api_items = [it for it in api_items if it[1][1]]
     nb = 8 if ctx.quick else 32
-    api_blocks = [["API"] + api_specs[i::nb] for i in range(nb) if api_specs[i::nb]]
-    ctx.count("types_also_in_api_mode", len(api_specs))
-    for block, r in pool.pmap(work, [[b] for b in blocks if b] + [[b] for b in api_blocks], item_timeout=1800):
+    # (first in the list: these blocks run a C compiler and take longest; quick: 8 of them so that the other half
+    #  of the workers goes on with the in-line blocks meanwhile)
+    blocks = [["API"] + api_items[i::nb] for i in range(nb) if api_items[i::nb]] + blocks
+    ctx.count("types_also_in_api_mode", len(api_items))
+    # ... and through an out-of-line ABI-mode module (struct layout computed at import from the emitted tables);
+    # quick: the flexible types
+    abi_items = [it for it in items if no_anon(it) and it[1][0] != "prim" and (ctx.quick is False or flexible(it))]
+    nb = 8 if ctx.quick else 32
+    blocks += [["ABI"] + abi_items[i::nb] for i in range(nb) if abi_items[i::nb]]
+    ctx.count("types_also_in_abi_mode", len(abi_items))
+    # ... and the flexible types with at most one header field under cdef(packed=True) (no bitfields: the layout
+    # of packed bitfields is refused or differs from gcc's, see C01)
+    pack_items = [it for it in items if flexible(it) and len(it[1][1]) <= 1 and
+                  not any(k in BITKINDS for k in it[1][1])]
+    nb = 4 if ctx.quick else 8
+    blocks += [["PACK"] + pack_items[i::nb] for i in range(nb) if pack_items[i::nb]]
+    blocks += [["PACK2"] + pack_items[i::nb] for i in range(nb) if pack_items[i::nb]]
+    ctx.count("types_also_packed_and_pack2", len(pack_items))
+    for block, r in pool.pmap(work, [[b] for b in blocks], item_timeout=1800):
         if isinstance(r, pool.WorkerError):
             raise InfraError(r.tb)
         if isinstance(r, pool.Crash):
-            ctx.violation({"kind": "crash", "api_mode": block[0] == "API"},
-                          {"block": [s for s in block if s != "API"][:50], "how": r.describe()})
+            ctx.violation({"kind": "crash", "api_mode": block[0] == "API", "mode": block[0]},
+                          {"block": [list(it[:2]) for it in block[1:]][:50], "how": r.describe()})
             continue
         nt, nc, nn, counts, bad = r
         ntypes += nt
@@ -663,9 +1076,10 @@ def run(ctx):
         details.sort(key=lambda d: (len(d["spec"][1]), len(d["init"]), json.dumps(d["spec"]), d["form"], d["init"]))
         for i in range(cnt):
             ctx.violation(sig, details[min(i, 2, len(details) - 1)])
-    for i in (5, len(specs) // 3, len(specs) // 2, len(specs) - 7):
+    nbase = len(base)
+    for i in (5, nbase // 3, nbase // 2, nbase - 7, nbase + 5, len(specs) - 3):
         idx, spec = specs[i]
-        ctx.sample({"type": build_type(spec, "a%d" % idx)[1], "forms": ["T *", "T[3]", "T[]"] if not spec[2] else ["T *"]})
+        ctx.sample({"type": build_type(spec, "a%d" % idx)[1] or PRIMS[spec[1][0]][0], "forms": list(items[i][2])})
     cov = {
         "evaluations": ncases,
         "distinct_nontrivial": nontriv,
@@ -674,9 +1088,21 @@ def run(ctx):
                 "again with a trailing int[], char[] or struct V {short; char[]}; each fixed-size aggregate also as T[3] "
                 "and T[]; x every initializer generated from the type (list/tuple prefixes, one too long, dicts over all "
                 "field subsets of size <= 2 in both orders, bytes, same-type cdata, int length, every alternative of every "
-                "member one level down, refused values); a case = (type form, initializer), executed through ffi.new, a "
-                "recording allocator, assignment and leaf stores; non-trivial = a case with an initializer (distinct by "
-                "construction; counted)" % (2 if ctx.quick else 3, KINDS),
+                "member one level down, refused values); added families: tails %s behind 0 or 1 header kinds%s; top-level "
+                "forms %s of the primitive kinds %s; field kinds %s alone (struct and union), in both orders with every "
+                "old kind (struct) and with c, i, d, b3 (union), followed by each old tail%s, and the bitfield kinds %s "
+                "pairwise with and without a following char; initializer objects additionally as list subclass, "
+                "namedtuple, OrderedDict, defaultdict, str-subclass key, bytes key (refused), dict over all fields, str "
+                "for wide arrays, bytes for every 1-byte item kind, lengths True / __index__ / float (refused) / padding-1, "
+                "padding, padding+1 items, cdata leaves, and free-form objects (range, bytearray, cdata array of another "
+                "length); a case = (type form, initializer), executed through ffi.new (type string or ctype object), a "
+                "recording allocator, the default new_allocator(), assignment and leaf stores; flexible types%s repeated "
+                "through API-mode and out-of-line ABI-mode FFIs, those with <= 1 header field also under packed=True "
+                "and pack=2; non-trivial = a case with an initializer (distinct by construction; counted)"
+                % (2 if ctx.quick else 3, KINDS, NEWFLEXES, "" if ctx.quick else " or 2 of (c, i, d, b3)",
+                   list(FORMS_PRIM), TOP_PRIMS, NEWKINDS,
+                   "" if ctx.quick else ", in every position of 3 fields with two of (c, d, b3)", BITKINDS,
+                   "" if ctx.quick else " (thorough: all types)"),
         "exhaustive": True,
         "bound": {"max_fields": 2 if ctx.quick else 3, "nesting_of_initializer_alternatives": 1},
     }
@@ -700,13 +1126,14 @@ def replay(detail):
                 print("VIOLATED", sig, d)
         _large.c20(_C())
         return 1 if _C.n else 0
-    import cffi
     spec = detail["spec"]
     spec = (spec[0], tuple(spec[1]), spec[2])
-    ffi = cffi.FFI()
-    d, text = build_type(spec, "a%d" % detail.get("idx", 0))
-    ffi.cdef(NAMED + text)
-    print(text)
+    idx = detail.get("idx", 0)
+    mode = detail.get("mode", "INL")
+    print("mode %s" % mode)
+    print(build_type(spec, "a%d" % idx)[1] or PRIMS[spec[1][0]][0])
+    ffi, built = make_ffi(mode, [(idx, spec)])
+    d = built[0][2]
     gen = Gen(ffi)
     rec = Recorder(ffi)
     probs = run_type(ffi, gen, rec, d, detail["form"], {})[0]
